@@ -154,6 +154,12 @@ func VerifH_C10_LoadRejects() {
 		DomainSets: []DomainSetConfig{{Tag: "d1"}},
 		Rules:      []RuleConfig{{Domain: "d1", Forward: "u1"}, {Reject: 5}},
 	}
+	// the other fields of the rules are arbitrary: a dangling reference must be caught whatever else the rule says
+	// (a rule may carry a reject code AND a forward target, a reverse flag, ...)
+	cfg.Rules[0].Reject = []uint16{0, 3}[verifrt.Choose("r0.reject", 2)]
+	cfg.Rules[0].Reverse = verifrt.Bool("r0.reverse")
+	cfg.Rules[1].Reject = []uint16{0, 5}[verifrt.Choose("r1.reject", 2)]
+	at := verifrt.Choose("rule", 2) // which rule carries the dangling reference (defects 3, 4)
 	defect := verifrt.Choose("defect", 8)
 	switch defect {
 	case 1:
@@ -161,9 +167,9 @@ func VerifH_C10_LoadRejects() {
 	case 2:
 		cfg.DomainSets = append(cfg.DomainSets, DomainSetConfig{Tag: "d1"}) // repeated domain-set tag
 	case 3:
-		cfg.Rules[0].Forward = "u2" // unknown upstream
+		cfg.Rules[at].Forward = "u2" // unknown upstream
 	case 4:
-		cfg.Rules[0].Domain = "d2" // unknown domain set
+		cfg.Rules[at].Domain = "d2" // unknown domain set
 	case 5:
 		cfg.Upstreams[0].Addr = "" // missing address
 	case 6:
@@ -175,7 +181,9 @@ func VerifH_C10_LoadRejects() {
 	verifrt.Reach("returned")
 	if defect == 0 {
 		verifrt.Assert(err == nil && r != nil, "the correct configuration starts")
-		verifrt.Assert(len(r.rules) == 2 && r.rules[0].upstream == r.upstreams["u1"] && r.rules[0].matcher == r.domainSets["d1"], "rules are bound to the tagged upstream and domain set, in order")
+		verifrt.Assert(len(r.rules) == 2 && r.rules[0].matcher == r.domainSets["d1"], "rules are bound to the tagged domain set, in order")
+		// (a rule that rejects never forwards: which upstream object it holds is not observable)
+		verifrt.Assert(cfg.Rules[0].Reject != 0 || r.rules[0].upstream == r.upstreams["u1"], "a forwarding rule is bound to the tagged upstream")
 		r.close(nil)
 		return
 	}
